@@ -1035,3 +1035,41 @@ OKM("engine-ifexp-and-temp", ["C14", "C15"], [
      "        if typ == \"SAMLRequest\":\n            _order = REQ_ORDER\n        else:\n            _order = RESP_ORDER\n",
      "        is_request = typ == \"SAMLRequest\"\n        _order = REQ_ORDER if is_request else RESP_ORDER\n", 1),
 ])
+# ------------------------------------------------------------------ round 8
+_C19_MEMO = ("cache.py",
+             "        cni = code(name_id)\n        return list(self._db[cni].keys())\n",
+             "        cni = code(name_id)\n        if getattr(self, \"_last\", (None,))[0] != cni:\n            self._last = (cni, self._db[cni])\n        return list(self._last[1].keys())\n", 1)
+VARIANTS.append(dict(id="c19-remembered-record-survives-delete", props=["C19"],
+                     expect="V", rule="R9", edits=[_C19_MEMO]))
+VARIANTS.append(dict(id="c19-remembered-record-cleared-by-delete", props=["C19"],
+                     expect="OK", edits=[
+    ("cache.py",
+     "        cni = code(name_id)\n        return list(self._db[cni].keys())\n",
+     "        cni = code(name_id)\n        self._last = cni\n        return list(self._db[cni].keys())\n", 1),
+    ("cache.py", "        del self._db[code(name_id)]\n",
+     "        del self._db[code(name_id)]\n        self._last = None\n", 1)]))
+VARIANTS.append(dict(id="c18-issued-memo-survives-remove-remote", props=["C18"],
+                     expect="V", rule="R10", edits=[
+    ("ident.py", "        del self.db[name_id.text]\n",
+     "        del self.db[name_id.text]\n        self._gone = name_id.text\n", 1)]))
+OK("c18-removal-counter-is-not-entry-state", "C18", "ident.py",
+   "        del self.db[name_id.text]\n",
+   "        del self.db[name_id.text]\n        self._removed = getattr(self, \"_removed\", 0) + 1\n")
+V("c16-loader-options-kept-on-store", "C16", "mdstore.py",
+  "        if self.filter:\n            _args = {\"filter\": self.filter}\n        else:\n            _args = {}\n\n        typ = args[0]",
+  "        _args = self.loader_args\n\n        typ = args[0]", rule="M13")
+OK("c16-loader-options-copied-from-store", "C16", "mdstore.py",
+   "        if self.filter:\n            _args = {\"filter\": self.filter}\n        else:\n            _args = {}\n\n        typ = args[0]",
+   "        _args = dict(self.loader_args) if hasattr(self, \"loader_args\") else ({\"filter\": self.filter} if self.filter else {})\n\n        typ = args[0]")
+V("c05-outstanding-from-instance-state", "C05", "client_base.py",
+  "            \"outstanding_queries\": outstanding,",
+  "            \"outstanding_queries\": self.__dict__.setdefault(\"pending\", outstanding),",
+  rule="R11")
+VARIANTS.append(dict(id="c09-super-init-crossed-arguments", props=["C09", "C16"],
+                     expect="V", edits=[
+    ("mdstore.py",
+     "    def __init__(self, attrc, metadata='', node_name=None,\n                 check_validity=True, security=None, **kwargs):\n        self.attrc = attrc",
+     "    def __init__(self, attrc, metadata='', node_name=None,\n                 security=None, check_validity=True, **kwargs):\n        self.attrc = attrc", 1),
+    ("mdstore.py",
+     "        super(InMemoryMetaData, self).__init__(attrc, metadata=metadata)\n",
+     "        super(InMemoryMetaData, self).__init__(attrc, metadata, node_name,\n                                               check_validity, security)\n", 1)]))
